@@ -34,6 +34,25 @@ def mro_names(e: BaseException) -> list[str]:
     return [k.__name__ for k in type(e).__mro__ if k not in (object, BaseException)]
 
 
+class _Operands:
+    """objs[i]: a live object (i > 0) or, for i = -(16 * set + cls), the namespace object
+    EXTRACTED from the live set: by set[cls] or by iterating the set (alternating), so that
+    operations also receive the very instances held inside sets (e.g. a class's shared default
+    namespace) and not only freshly constructed ones."""
+
+    def __init__(self, tree, objs):
+        self.tree, self.objs = tree, objs
+
+    def __getitem__(self, i):
+        if i > 0:
+            return self.objs[i]
+        ra, k = divmod(-i, 16)
+        rc = self.tree.cls[k]
+        if (ra + k) % 2:
+            return self.objs[ra][rc]
+        return next(ns for ns in self.objs[ra] if ns.get_render_cls() is rc)
+
+
 class Tree:
     """Real render classes + namespace classes for one model tree.
 
@@ -108,6 +127,7 @@ class Tree:
 
         name, a, b, c, nss, kw = op
         kwargs = {f"f{f}": v for f, v in kw}
+        objs = _Operands(self, objs)
         try:
             if name == "NsNew":
                 r = self.args[c](**kwargs)
